@@ -104,6 +104,8 @@ OPS = [
     (NA + ".relu", "ReLu", 1, {}, lambda x, T: [x[0] != 0]),
     (NA + ".elu", "ELU", 1, {"alpha": z3.Real("alpha")}, lambda x, T: [x[0] != 0]),
     (NA + ".selu", "SELU", 1, {}, lambda x, T: [x[0] != 0]),
+    # where(condition, a, b): a pointwise selection -- the condition is an arbitrary boolean per element
+    ("mygrad.indexing_routines.ops", "Where", 2, {"condition": z3.Bool("cond")}, None),
 ]
 
 
